@@ -97,6 +97,9 @@ def _params_repr(m):
     return repr(sorted((k, repr(v)) for k, v in m.get_params(deep=False).items()))
 
 
+CRASHED_DYNAMIC_PATH = []
+
+
 def _apply(m, ev, D):
     """Apply one event; returns (model after the event, event kind)."""
     kind = ev[0]
@@ -123,8 +126,10 @@ def _apply(m, ev, D):
                 m.set_params(**{ev[1]: ev[2]})
             elif kind == "clone":
                 m = clone(m)
-        except Exception:
-            pass                      # e.g. predicting before fit: refusing is fine, the history goes on
+        except Exception as e:  # noqa
+            # e.g. predicting before fit: refusing is fine, the history goes on
+            if kind == "path1" and "0 feature(s)" in str(e):
+                CRASHED_DYNAMIC_PATH.append(1)      # KF-C07-1: the path died half-way (dynamic mode, empty selection)
     return m
 
 
@@ -163,11 +168,13 @@ def history_search(case):
     seen_kinds = set()
 
     def report(kind, detail, **extra):
-        if kind not in seen_kinds:
-            seen_kinds.add(kind)
-            v.append(violation(kind, detail, **dict(where, **extra)))
+        crashed = bool(CRASHED_DYNAMIC_PATH)
+        if (kind, crashed) not in seen_kinds:
+            seen_kinds.add((kind, crashed))
+            v.append(violation(kind, detail, **dict(where, after_crashed_dynamic_path=crashed, **extra)))
 
     def replay(hist):
+        del CRASHED_DYNAMIC_PATH[:]
         m, _, _ = fresh()
         overrides = {}
         for ev in hist:
@@ -317,6 +324,8 @@ def isolation_case(case):
 def explorers(tier, seed):
     depth = 3 if tier == "thorough" else 2
     cases = [(name, si, depth, seed) for name in M.ESTIMATORS for si in range(len(SPECS[name]))]
+    if seed != 1:
+        cases.append(("SparseLinearModel", 1, 1, 1))      # witness of KF-C12-1, independent of VERIF_SEED
     return [Explorer("call_histories", "props.c12", "history_search", cases, kind="bfs", chunk=1, floor=20, case_timeout=3000,
                      rule="BFS over call histories (fit(X1), fit(X2), fit_predict, predict, predict_proba, score, set_params of several hyperparameters, "
                           "path on sparse models, clone) of depth <= " + str(depth) + " on each of the 18 estimators in 1-2 configurations; states deduplicated by "
